@@ -92,7 +92,10 @@ func (r Retrieve) Where(filter gorp.Filter[string, Resource]) Retrieve {
 func (r Retrieve) WhereTypes(types ...ResourceType) Retrieve {
 	c := r.currentClause()
 	if len(types) == 1 {
-		c.Retrieve = c.WherePrefix([]byte(types[0].String()))
+		// Resource keys are "<type>:<key>": end the prefix on the separator so that a
+		// type that is a string prefix of another ("range" / "range-alias") does not
+		// match it.
+		c.Retrieve = c.WherePrefix([]byte(types[0].String() + ":"))
 	} else {
 		c.Retrieve = c.Where(gorp.Match[string, Resource](func(_ gorp.Context, r *Resource) (bool, error) {
 			return lo.Contains(types, r.ID.Type), nil
